@@ -701,6 +701,10 @@ class Fn:
             return ('call', name, args, None)
         return ('call', name, args, bi)
 
+    def call_val(self, bi):
+        """call_expr with references to temporaries resolved (comparable with switch discriminants)."""
+        return self.through_refs(self.call_expr(bi), bi)
+
     def arg(self, bi, i):
         """Provenance of argument i of the call terminating block bi."""
         t = self.blocks[bi]['term']
@@ -751,7 +755,7 @@ class Fn:
         if t['k'] != 'switch':
             return None
         pt = (bi, len(self.blocks[bi]['stmts']))
-        d = self.operand(t['discr'], pt)
+        d = self._through(self.operand(t['discr'], pt), pt, 0)
         edges = [(tg, v) for v, tg in t['targets']] + [(t['otherwise'], None)]
         return d, edges, [v for v, _ in t['targets']]
 
@@ -1297,3 +1301,18 @@ def rewrite(e, fn):
     if k in ('const', 'bytes', 'param', 'local', 'fnptr', 'uninit', 'cyc', 'modby'):
         return e
     return tuple(rewrite(x, fn) if isinstance(x, tuple) and x and isinstance(x[0], str) else x for x in e)
+
+
+def palts(e, unwraps=True, casts=False):
+    """Peel, expand phis, peel again (recursively): the list of base alternatives of a value."""
+    out = []
+    work = [e]
+    seen = set()
+    while work:
+        x = peel(work.pop(), unwraps=unwraps, casts=casts)
+        if isinstance(x, tuple) and x and x[0] == 'phi':
+            work += list(x[1])
+        elif x not in seen:
+            seen.add(x)
+            out.append(x)
+    return out
